@@ -129,6 +129,13 @@ type C08Case struct {
 	// deviation statements: the deviating modules define schema nodes of their own, so the run WITHOUT
 	// the deviations loads them too, and their own trees take part in the frame comparison.
 	StrippedDevTexts []string `json:"stripped_dev_texts,omitempty"`
+	// PathRoots, when set, makes the run WITH the deviations a files-on-disk run: only these files are
+	// handed to Parse, every other file is on the search path and is loaded by the first Process when an
+	// import or include reaches it.  LoaderNames / LoaderTexts: modules added to that run only, whose
+	// imports reach the deviating modules (they define nothing).
+	PathRoots   []string `json:"path_roots,omitempty"`
+	LoaderNames []string `json:"loader_names,omitempty"`
+	LoaderTexts []string `json:"loader_texts,omitempty"`
 	// Malformed: a deviate substatement has a value its keyword does not admit (config "", min-elements "");
 	// the conversion of the deviating module must report it.
 	Malformed bool `json:"malformed,omitempty"`
@@ -564,6 +571,104 @@ func C08Exhaustive() []C08Case {
 	out = append(out, c08TypeOnlyCases()...)
 	out = append(out, c08ShadowCases()...)
 	out = append(out, c08RevisionCases()...)
+	out = append(out, c08AugmentedCases()...)
+	return out
+}
+
+// c08AugmentedCases: deviation targets at and below nodes that OTHER modules augmented into the base:
+// a shorthand leaf / container augmented into a foreign choice (the implied case around it is the
+// library's), an explicit case, nodes below them, nodes augmented into an rpc input, into a container,
+// and a chain (a second module augmenting what the first one added).  Paths in the RFC spelling (every
+// step carries the prefix of the module that defines the node) and in the other spellings the library
+// accepts (only the first prefix selects the tree: the base prefix on every step, later steps without
+// prefix, later steps all with the augmenting module's prefix).
+func c08AugmentedCases() []C08Case {
+	var out []C08Case
+	st := func(kind string, pv ...string) DevStmt {
+		s := NewDevStmt(kind)
+		for i := 0; i+1 < len(pv); i += 2 {
+			s.Set(pv[i], pv[i+1])
+		}
+		return s
+	}
+	bText := "module b {\n  namespace \"urn:b\";\n  prefix b;\n  leaf s0 { type string; default keep; }\n" +
+		"  container c { choice ch { leaf own { type string; default d1; } } leaf cl { type string; } }\n" +
+		"  rpc r { input { leaf i { type string; } } output { leaf o { type string; } } }\n}\n"
+	aText := "module a {\n  namespace \"urn:a\";\n  prefix a;\n  import b { prefix b; }\n" +
+		"  augment /b:c/b:ch {\n    leaf x { type string; default d1; }\n    container k { leaf kx { type string; default d1; } }\n" +
+		"    case cs { leaf y { type string; default d1; } }\n  }\n" +
+		"  augment /b:r/b:input {\n    leaf ai { type string; default d1; }\n    container ac { leaf z { type string; default d1; } }\n  }\n" +
+		"  augment /b:c {\n    container ac { leaf z { type string; default d1; } }\n  }\n}\n"
+	a2Text := "module a2 {\n  namespace \"urn:a2\";\n  prefix a2;\n  import b { prefix b; }\n  import a { prefix a; }\n" +
+		"  augment /b:c/a:ac {\n    leaf z2 { type string; default d1; }\n  }\n" +
+		"  augment /b:r/b:input/a:ac {\n    leaf-list zl { type string; default d1; }\n  }\n}\n"
+	type step struct{ pfx, name string }
+	targets := []struct {
+		name  string
+		steps []step
+	}{
+		{"choice-shorthand-leaf", []step{{"b", "c"}, {"b", "ch"}, {"a", "x"}, {"a", "x"}}},
+		{"choice-shorthand-implied-case", []step{{"b", "c"}, {"b", "ch"}, {"a", "k"}}},
+		{"choice-shorthand-container", []step{{"b", "c"}, {"b", "ch"}, {"a", "k"}, {"a", "k"}}},
+		{"below-choice-shorthand-container", []step{{"b", "c"}, {"b", "ch"}, {"a", "k"}, {"a", "k"}, {"a", "kx"}}},
+		{"explicit-case", []step{{"b", "c"}, {"b", "ch"}, {"a", "cs"}}},
+		{"below-explicit-case", []step{{"b", "c"}, {"b", "ch"}, {"a", "cs"}, {"a", "y"}}},
+		{"own-shorthand-next-to-augmented", []step{{"b", "c"}, {"b", "ch"}, {"b", "own"}, {"b", "own"}}},
+		{"rpc-input-leaf", []step{{"b", "r"}, {"b", "input"}, {"a", "ai"}}},
+		{"below-rpc-input-container", []step{{"b", "r"}, {"b", "input"}, {"a", "ac"}, {"a", "z"}}},
+		{"container", []step{{"b", "c"}, {"a", "ac"}}},
+		{"below-container", []step{{"b", "c"}, {"a", "ac"}, {"a", "z"}}},
+		{"chain", []step{{"b", "c"}, {"a", "ac"}, {"a2", "z2"}}},
+		{"chain-rpc-input", []step{{"b", "r"}, {"b", "input"}, {"a", "ac"}, {"a2", "zl"}}},
+	}
+	spell := func(steps []step, how string) string {
+		var sb strings.Builder
+		last := steps[len(steps)-1].pfx
+		for i, x := range steps {
+			p := x.pfx
+			switch {
+			case i == 0:
+			case how == "base-prefix":
+				p = "b"
+			case how == "no-prefix":
+				p = ""
+			case how == "last-prefix":
+				p = last
+			}
+			if p == "" {
+				sb.WriteString("/" + x.name)
+			} else {
+				sb.WriteString("/" + p + ":" + x.name)
+			}
+		}
+		return sb.String()
+	}
+	stmts := []struct {
+		name string
+		s    []DevStmt
+	}{
+		{"replace-default", []DevStmt{st("replace", "default", "x")}},
+		{"add-units", []DevStmt{st("add", "units", "u1")}},
+		{"add-config", []DevStmt{st("add", "config", "false")}},
+		{"not-supported", []DevStmt{NewDevStmt("not-supported")}},
+	}
+	for _, t := range targets {
+		dump := "/b"
+		for _, x := range t.steps {
+			dump += "/" + x.name
+		}
+		for _, how := range []string{"rfc", "base-prefix", "no-prefix", "last-prefix"} {
+			for _, x := range stmts {
+				devs := []Deviation{{Module: "dv", Arg: spell(t.steps, how), Target: dump, TargetMod: "b", Stmts: x.s}}
+				combo := fmt.Sprintf("augmented/%s/%s/%s", t.name, how, x.name)
+				c := C08Case{Label: combo, Combo: combo, BaseNames: []string{"b.yang", "a.yang", "a2.yang"}, BaseTexts: []string{bText, aText, a2Text},
+					Devs: devs, DevMods: []string{"dv"}}
+				c.DevNames = []string{"dv.yang"}
+				c.DevTexts = []string{devModuleText("dv", [][2]string{{"b", "b"}, {"a", "a"}, {"a2", "a2"}}, devs)}
+				out = append(out, c)
+			}
+		}
+	}
 	return out
 }
 
@@ -1093,7 +1198,7 @@ func C08Random(r *rand.Rand) C08Case {
 		sp                 SchemaPath
 		m                  *Module
 	}
-	var tgts []tgt
+	var tgts, augmented []tgt
 	for _, m := range set.Mods {
 		if m.Sub || m.File != "" {
 			// (m.File is set for the older second revision of a module: an import without
@@ -1126,6 +1231,116 @@ func C08Random(r *rand.Rand) C08Case {
 				d.WriteString("/" + n)
 			}
 			tgts = append(tgts, tgt{pathString(p.SchemaPath, "i"+m.Name, true), d.String(), p.Kw, full, p.n, p.SchemaPath, m})
+		}
+	}
+	// nodes that other modules (or the module itself) augment in: the augment's target is looked up among
+	// the written nodes of the module its first prefix denotes; every node of the augment's body becomes a
+	// target, spelled in one of the ways the library accepts (RFC: each step with the prefix of the module
+	// that defines it; base prefix everywhere; later steps without prefix; later steps with the augmenting
+	// module's prefix)
+	{
+		full := map[*Module]string{}
+		nodesOf := map[*Module][]c08Node{}
+		for _, m := range set.Mods {
+			if m.Sub || m.File != "" {
+				continue
+			}
+			full[m] = m.Name
+			if len(m.Revisions) > 0 {
+				revs := append([]string{}, m.Revisions...)
+				sort.Strings(revs)
+				full[m] = m.Name + "@" + revs[len(revs)-1]
+			}
+			var nodes []c08Node
+			c08Expand(m.Body, nil, nil, "module", 0, &nodes)
+			for _, s := range m.Includes {
+				c08Expand(s.Body, nil, nil, "module", 0, &nodes)
+				for _, s2 := range s.Includes {
+					c08Expand(s2.Body, nil, nil, "module", 0, &nodes)
+				}
+			}
+			nodesOf[m] = nodes
+		}
+		for _, am := range set.Mods {
+			if am.File != "" {
+				continue
+			}
+			owner := am
+			if am.Sub {
+				owner = am.Owner
+			}
+			for _, a := range am.Body.Kids {
+				if a.Kw != "augment" || !strings.HasPrefix(a.Arg, "/") {
+					continue
+				}
+				var names []string
+				var tm *Module
+				okPath := true
+				for i, stp := range strings.Split(a.Arg[1:], "/") {
+					pfx, name := "", stp
+					if j := strings.IndexByte(stp, ':'); j >= 0 {
+						pfx, name = stp[:j], stp[j+1:]
+					}
+					if i == 0 {
+						if pfx == am.Prefix {
+							tm = owner
+						}
+						for _, o := range am.Imports {
+							if am.ImportPrefix[o] == pfx && !o.Sub && o.File == "" {
+								tm = o
+							}
+						}
+					}
+					names = append(names, name)
+				}
+				if tm == nil || full[tm] == "" || !okPath {
+					continue
+				}
+				var target *c08Node
+				for i := range nodesOf[tm] {
+					if strings.Join(nodesOf[tm][i].Names, "/") == strings.Join(names, "/") {
+						target = &nodesOf[tm][i]
+						break
+					}
+				}
+				if target == nil {
+					continue
+				}
+				var added []c08Node
+				c08Expand(a, target.Names, target.ChoiceShorthand, target.Kw, 1, &added)
+				how := r.Intn(4)
+				for _, p := range added {
+					var arg, d strings.Builder
+					d.WriteString("/" + tm.Name)
+					for i, n := range p.Names {
+						pfx := "i" + tm.Name
+						if i >= len(target.Names) {
+							pfx = "i" + owner.Name
+						}
+						switch {
+						case i == 0:
+						case how == 1:
+							pfx = "i" + tm.Name
+						case how == 2:
+							pfx = ""
+						case how == 3:
+							pfx = "i" + owner.Name
+						}
+						stp := "/" + n
+						if pfx != "" {
+							stp = "/" + pfx + ":" + n
+						}
+						if p.ChoiceShorthand[i] {
+							arg.WriteString(stp)
+							d.WriteString("/" + n)
+						}
+						arg.WriteString(stp)
+						d.WriteString("/" + n)
+					}
+					tgts = append(tgts, tgt{arg.String(), d.String(), p.Kw, full[tm], p.n, p.SchemaPath, tm})
+					augmented = append(augmented, tgts[len(tgts)-1])
+				}
+			}
 		}
 	}
 	sort.SliceStable(tgts, func(i, j int) bool { return tgts[i].dump < tgts[j].dump })
@@ -1194,6 +1409,9 @@ func C08Random(r *rand.Rand) C08Case {
 				t := tgts[r.Intn(len(tgts))]
 				if g.chance(0.5) {
 					t = pool[r.Intn(len(pool))]
+				}
+				if len(augmented) > 0 && g.chance(0.2) {
+					t = augmented[r.Intn(len(augmented))]
 				}
 				d.Arg, d.Target, d.TargetMod = t.arg, t.dump, t.mod
 				if pinned[m][t.m.Name] {
@@ -1480,4 +1698,51 @@ func c08AddTypedefDefaults(g *genr, set *Set) {
 		}
 		walk(m.Body)
 	}
+}
+
+// C08FromDisk turns a case into its files-on-disk variant: the deviating modules are not handed to
+// Parse but reached by the first Process through the imports of a loader module `top` (variant 0: top
+// is the only root, the base arrives through the deviating modules' imports; variant 1: the base files
+// are roots too).  A base that holds deviations in a submodule keeps the submodule on disk (reached
+// through include).  With two revisions of a base module loaded the base files are always roots (which
+// file an import without revision-date finds on disk is a different question).
+func C08FromDisk(c C08Case, variant int) C08Case {
+	if len(c.DevMods) == 0 && len(c.WithBaseTexts) == 0 {
+		return c
+	}
+	c.Label += "/from-disk"
+	if c.Combo != "" {
+		c.Combo += fmt.Sprintf("/from-disk-%d", variant)
+	}
+	twoRevs := false
+	for _, n := range c.BaseNames {
+		if strings.Contains(n, "@") {
+			twoRevs = true
+		}
+	}
+	var sb strings.Builder
+	sb.WriteString("module top {\n  namespace \"urn:top\";\n  prefix top;\n")
+	for i, m := range c.DevMods {
+		fmt.Fprintf(&sb, "  import %s { prefix t%d; }\n", m, i)
+	}
+	if len(c.DevMods) == 0 {
+		// deviations in a submodule of the base only: the loader imports the owning modules
+		for i, n := range c.BaseNames {
+			if !strings.Contains(n, "-s") {
+				fmt.Fprintf(&sb, "  import %s { prefix t%d; }\n", strings.TrimSuffix(n, ".yang"), i)
+			}
+		}
+	}
+	sb.WriteString("}\n")
+	c.LoaderNames, c.LoaderTexts = []string{"top.yang"}, []string{sb.String()}
+	c.PathRoots = []string{"top.yang"}
+	if variant == 1 || twoRevs {
+		for _, n := range c.BaseNames {
+			// (submodules stay on disk: they arrive through include)
+			if !strings.Contains(n, "-s") {
+				c.PathRoots = append(c.PathRoots, n)
+			}
+		}
+	}
+	return c
 }
